@@ -278,3 +278,69 @@ def reactor_registry(prog, an):
                     'authored': False, 'handler': f,
                     'where': f.where(dec)}
     return options, commands
+
+
+# ------------------------------------------------------------------ effects
+GIT = 'bert_e.lib.git'
+LOCAL_CREATE = {GIT + '.Branch.create', GIT + '.Branch.merge'}
+PUBLISH = {GIT + '.Repository.push', GIT + '.Repository.push_all'}
+CLONE = {GIT + '.Repository.clone'}
+
+
+def host_methods(prog, name):
+    return {m.qname for m in prog.methods_named(name)
+            if m.module.name.startswith('bert_e.git_host')}
+
+
+def reaches(an, f, qnames, depth=12, want_path=False):
+    """Does f (transitively, through resolved and by-name calls) reach one
+    of the functions in qnames?  Breadth-first, hence deterministic and
+    shortest; returns the first hit (or the call chain) or None."""
+    from collections import deque
+    prev = {f.qname: None}
+    dq = deque([(f.qname, 0)])
+    while dq:
+        q, d = dq.popleft()
+        if d > 0 and q in qnames:
+            if not want_path:
+                return q
+            chain = []
+            while q is not None:
+                chain.append(q)
+                q = prev[q]
+            return list(reversed(chain))
+        g = an.prog.funcs.get(q)
+        if g is None or d >= depth:
+            continue
+        nxt = sorted(an.callees(g)) + sorted(nf.qname
+                                             for nf in g.nested.values())
+        for nq in nxt:
+            if nq not in prev:
+                prev[nq] = q
+                dq.append((nq, d + 1))
+    return None
+
+
+def stmt_reaches(an, f, astnode, qnames):
+    """Does a statement of f contain a call that is / reaches qnames?"""
+    from ..cfg import local_nodes
+    roots = [astnode]
+    if isinstance(astnode, (ast.For, ast.AsyncFor)):
+        roots = [astnode.iter]
+    elif isinstance(astnode, (ast.With, ast.AsyncWith)):
+        roots = [i.context_expr for i in astnode.items]
+    elif isinstance(astnode, (ast.While, ast.If, ast.Try,
+                              ast.ExceptHandler)):
+        return None
+    for r in roots:
+        for n in local_nodes(r):
+            if isinstance(n, ast.Call):
+                for t in an.call_targets(f, n):
+                    if t in qnames:
+                        return t
+                    g = an.prog.funcs.get(t)
+                    if g is not None:
+                        hit = reaches(an, g, qnames)
+                        if hit:
+                            return hit
+    return None
